@@ -429,6 +429,29 @@ pub fn run_probe_property<H: HB>(prop: &'static str, tier: Tier) -> Outcome {
         let viol: Vec<Case> = viol.into_iter().map(|e| Case { prop: prop.into(), hasher: H::NAME.into(), double: e.starts_with("Double"), root: Root::New, ops: vec![], last: None, probe: Some("drop-accounting-plain-priorities".into()), detail: e, universe: vec![], aux: None, trail: vec![], params: vec![] }).collect();
         absorb_post(&mut out, "drop accounting: queues of 0..6 tracked items with i32 priorities (no drop glue) x clear / drain (consumed j, dropped or leaked) / retain none / pop all / into_iter / into_sorted_iter / append+clear / clone: every item dropped exactly once", cases, viol, t0, json!({}));
     }
+    if prop == "C16" && out.violations.is_empty() {
+        // "all subsequent histories on the emptied queue": queues emptied in each of seven ways,
+        // refilled by pushes to every deep seed tree, then every operation under the lock-step oracle
+        for n in if q { vec![6usize, 8] } else { vec![5, 6, 7, 8, 9, 10] } {
+            let mut c = seeds_cfg(prop, n, &REL_BIN, A_REACH | A_PUSH_INCDEC | A_CLEAR_DRAIN);
+            c.deep = n <= 8;
+            let mut roots = vec![];
+            for s in if n <= 8 { f_bin(n) } else { f_seg(n) } {
+                let Root::FromVec(pairs) = s else { continue };
+                for how in 0..7u8 {
+                    if q && n == 8 && how % 3 != 0 {
+                        continue;
+                    }
+                    roots.push(Root::Refilled(how, pairs.clone()));
+                }
+            }
+            let depth = if q || n > 8 { 1 } else { 2 };
+            run_seeds::<H>(&mut out, &format!("E2 emptied (7 ways) and refilled to every seed of {n} elements, depth {depth}"), &c, roots, depth, &no_probes);
+            if !out.violations.is_empty() {
+                return out;
+            }
+        }
+    }
     if !out.violations.is_empty() || prop == "C16" && q {
         return out;
     }
